@@ -86,6 +86,7 @@ type VC struct {
 	globals   []string
 	ifaceAsserts map[string]types.Type
 	names     map[string]int
+	tableDone bool
 }
 
 func NewVC(w *World, name string) *VC {
@@ -109,8 +110,84 @@ func (vc *VC) epochComp(epoch, name string, sort Sort) Term {
 			vc.compSorts[name] = sort
 		}
 		vc.Lines = append(vc.Lines, fmt.Sprintf("(declare-const %s %s)", c, sort))
+		vc.AssumeCompTyping(name, Term{c, sort})
 	}
 	return Term{c, sort}
+}
+
+// AssumeCompTyping states the heap typing invariant for a freshly introduced
+// (initial or havoc'd) heap component: every stored value is a value of the
+// field's / element's Go type (integer ranges, slice headers well-formed).
+func (vc *VC) AssumeCompTyping(name string, comp Term) {
+	var t types.Type
+	twoLevel := false
+	switch {
+	case strings.HasPrefix(name, "F!"):
+		rest := name[2:]
+		i := strings.LastIndex(rest, "!")
+		if i < 0 {
+			return
+		}
+		info := vc.W.Sorts.structs[rest[:i]]
+		if info == nil {
+			return
+		}
+		for _, f := range info.Fields {
+			if f.Name == rest[i+1:] {
+				t = f.Type
+			}
+		}
+	case strings.HasPrefix(name, "M!"):
+		t = compElemTypes[name]
+		twoLevel = true
+	}
+	if t == nil {
+		return
+	}
+	r := Term{"r!", SInt}
+	var v Term
+	vars := []Term{r}
+	if twoLevel {
+		j := Term{"j!", SInt}
+		vars = append(vars, j)
+		v = Sel(Sel(comp, r), j)
+	} else {
+		v = Sel(comp, r)
+	}
+	facts := vc.W.staticTypeFacts(t, v)
+	if len(facts) == 0 {
+		return
+	}
+	vc.Lines = append(vc.Lines, "(assert "+Forall(vars, And(facts...), []Term{v}).S+")")
+}
+
+// staticTypeFacts: facts every value of Go type t satisfies that do not depend on the heap.
+func (w *World) staticTypeFacts(t types.Type, v Term) []Term {
+	var out []Term
+	switch t.Underlying().(type) {
+	case *types.Basic:
+		if lo, hi, ok := IntRange(t); ok {
+			out = append(out, Le(BigLit(lo), v), Le(v, BigLit(hi)))
+		}
+	case *types.Slice:
+		out = append(out, Ge(SLen(v), IntLit(0)), Ge(SCap(v), SLen(v)), Ge(SOff(v), IntLit(0)),
+			Le(SCap(v), Term{"9223372036854775807", SInt}), Ge(SArr(v), IntLit(0)),
+			Implies(Eq(SArr(v), IntLit(0)), And(Eq(SCap(v), IntLit(0)), Eq(SOff(v), IntLit(0)))))
+	case *types.Map:
+		out = append(out, Ge(v, IntLit(0)))
+	case *types.Struct:
+		so := w.Sorts.SortOf(t)
+		info := w.Sorts.Struct(so)
+		for i, fi := range info.Fields {
+			if fi.Ghost || fi.Type == nil {
+				continue
+			}
+			out = append(out, w.staticTypeFacts(fi.Type, w.Sorts.FieldOf(v, i))...)
+		}
+	case *types.Interface:
+		out = append(out, Ge(ITag(v), IntLit(0)))
+	}
+	return out
 }
 
 func (vc *VC) initialComp(name string, sort Sort) Term {
@@ -119,6 +196,7 @@ func (vc *VC) initialComp(name string, sort Sort) Term {
 		vc.declared[c] = true
 		vc.compSorts[name] = sort
 		vc.Lines = append(vc.Lines, fmt.Sprintf("(declare-const %s %s)", c, sort))
+		vc.AssumeCompTyping(name, Term{c, sort})
 	}
 	return Term{c, sort}
 }
